@@ -60,7 +60,9 @@ theorem C15_gen_triclinic_shift (i j k : Rat) (b : Box) :
     BiotiteModel.Gen.C15.triSelect = ["argmin"] ∧ BiotiteModel.Gen.C15.triDiffsFrom = "fraction_to_coord" ∧
     BiotiteModel.Gen.C15.triKey = "vector_dot(shifted_diffs, shifted_diffs)" := by
   refine ⟨?_, by decide, by decide, by decide⟩
-  apply V3.ext' <;> simp only [BiotiteModel.Gen.C15.triShift, vecMul]
+  first
+    | rfl
+    | (apply V3.ext' <;> simp only [BiotiteModel.Gen.C15.triShift, vecMul] <;> ring)
 
 /-- `vectors_from_unitcell`: the array literal of the source (locals inlined) is the model's `vectorsFromCell`, and the
 radicand of `c_z` is the one `C15_unitcell_inverse_partial` assumes. -/
@@ -70,9 +72,13 @@ theorem C15_gen_unitcell_formula (la lb lc ca cb cg sg cz : Rat) :
       lc * lc - (lc * cb) * (lc * cb) - (lc * (ca - cb * cg) / sg) * (lc * (ca - cb * cg) / sg) ∧
     BiotiteModel.Gen.C15.cellDtype = "np.float32" := by
   refine ⟨?_, ?_, by decide⟩
-  · simp only [BiotiteModel.Gen.C15.cellBox, vectorsFromCell, M3.mk.injEq, V3.mk.injEq]
-    refine ⟨⟨by ring, by ring, by ring⟩, ⟨by ring, by ring, by ring⟩, ⟨by ring, by ring, by ring⟩⟩
-  · simp only [BiotiteModel.Gen.C15.cellCzSq]
+  · first
+      | rfl
+      | (simp only [BiotiteModel.Gen.C15.cellBox, vectorsFromCell, M3.mk.injEq, V3.mk.injEq]
+         refine ⟨⟨by ring, by ring, by ring⟩, ⟨by ring, by ring, by ring⟩, ⟨by ring, by ring, by ring⟩⟩)
+  · first
+      | rfl
+      | (simp only [BiotiteModel.Gen.C15.cellCzSq]; ring)
 
 /-- `dihedral`: `arctan2(first, second)` with `first = ((v1×v2)×(v2×v3))·v2 = dihYv` and `second = (v1×v2)·(v2×v3) = dihXv`
 (locals `n1`, `n2`, `x`, `y` inlined), after `norm_vector` of the three bond vectors. -/
@@ -80,7 +86,9 @@ theorem C15_gen_dihedral_formula (v1 v2 v3 : Vec) :
     BiotiteModel.Gen.C15.dihArg1 v1 v2 v3 = dihYv v1 v2 v3 ∧ BiotiteModel.Gen.C15.dihArg2 v1 v2 v3 = dihXv v1 v2 v3 ∧
     BiotiteModel.Gen.C15.dihNormed = ["v1", "v2", "v3"] := by
   refine ⟨?_, ?_, by decide⟩ <;>
-    simp only [BiotiteModel.Gen.C15.dihArg1, BiotiteModel.Gen.C15.dihArg2, dihYv, dihXv, V3.dot, V3.cross] <;> ring
+    first
+      | rfl
+      | (simp only [BiotiteModel.Gen.C15.dihArg1, BiotiteModel.Gen.C15.dihArg2, dihYv, dihXv, V3.dot, V3.cross]; ring)
 
 /-- `angle = arccos(clip(vector_dot(v1, v2), -1, 1))` of the two normalised vectors; `distance = sqrt(vector_dot(diff, diff))`. -/
 theorem C15_gen_measure_forms :
@@ -104,8 +112,12 @@ theorem C15_gen_displacement_structure (v1 v2 : Vec) :
     BiotiteModel.Gen.C15.orthoCmp = ["Lt"] ∧ BiotiteModel.Gen.C15.orthoCombine = ["BitAnd"] ∧
     BiotiteModel.Gen.C15.volumeForm = ["abs", "det"] := by
   refine ⟨?_, ?_, by decide, by decide, by decide, by decide, by decide, by decide, by decide, by decide, by decide⟩
-  · apply V3.ext' <;> simp only [BiotiteModel.Gen.C15.dispDiffThen, V3.sub]
-  · apply V3.ext' <;> simp only [BiotiteModel.Gen.C15.dispDiffElse, V3.sub, V3.neg] <;> ring
+  · first
+      | rfl
+      | (apply V3.ext' <;> simp only [BiotiteModel.Gen.C15.dispDiffThen, V3.sub, V3.neg, V3.add] <;> ring)
+  · first
+      | rfl
+      | (apply V3.ext' <;> simp only [BiotiteModel.Gen.C15.dispDiffElse, V3.sub, V3.neg, V3.add] <;> ring)
 
 /-- `repeat_box_coord`: the shift is `sum(box * [i, j, k][:, newaxis], axis=-2)`, added to a copy, the original
 coordinates come first, everything is concatenated along the atom axis, the index array is tiled `(1 + 2·amount)³`
@@ -116,7 +128,9 @@ theorem C15_gen_repeat_structure (a : Int) :
     BiotiteModel.Gen.C15.repCount a = (1 + 2 * a) ^ 3 ∧ BiotiteModel.Gen.C15.repTypeCheck = ["Integral"] ∧
     BiotiteModel.Gen.C15.repAdds = ["Add"] := by
   refine ⟨by decide, by decide, by decide, by decide, ?_, by decide, by decide⟩
-  simp only [BiotiteModel.Gen.C15.repCount]
+  first
+    | rfl
+    | (simp only [BiotiteModel.Gen.C15.repCount]; ring)
 
 /-- `remove_pbc_from_coord`: pairs `(i, i+1)` for `i = 0 … n−2`, `index_displacement(..., periodic=True, box=box)`,
 `cumsum` along the atom axis, the first atom through `move_inside_box`, the rest `base + cumulative displacement`.
